@@ -6,7 +6,7 @@ PLAN = dict(
           "2-4 objects and a drawn sequence of 4-24 interleaved serializer calls: every output equals the first output of that (object, serializer). concurrent (built with "
           "-race): 8-16 goroutines released in a drawn order, each running a drawn sequence of serializer and verifier calls over SHARED objects (generated objects, a parsed "
           "signed exchange with its certificate fetcher, a parsed signed bundle, version constants, the stateful-header tables, an Ed25519 key): outputs equal the sequential "
-          "baseline and the race detector stays silent. mutation-history: a signed exchange object is edited step by step (headers, status, URL, payload, method) and after the edits Write / DumpExchangeHeaders / ComputeHeaderIntegrity of the edited object must equal those of a fresh object with identical fields (no hidden caches). first-use: in a fresh process (2-8 processes per run) the very first calls into every package are made by 16 goroutines at once (exposes lazily initialised package-level state). Non-trivial: >= 1 extra insertion order; >= 4 calls over >= 2 objects; every concurrent case."),
+          "baseline and the race detector stays silent. mutation-history: a signed exchange object is edited step by step (headers, status, URL, payload, method) and after the edits Write / DumpExchangeHeaders / ComputeHeaderIntegrity of the edited object must equal those of a fresh object with identical fields (no hidden caches). shared-chain: 2-5 bundles are signed with ONE certificate chain value (1-4 certificates) and counter-signed by their own second authority, sequentially or from goroutines (race build); each bundle's bytes and authorities must stay what they were once all are signed, and the shared chain must be unchanged. first-use: in a fresh process (2-8 processes per run) the very first calls into every package are made by 16 goroutines at once (exposes lazily initialised package-level state). Non-trivial: >= 1 extra insertion order; >= 4 calls over >= 2 objects; every concurrent case."),
     assumptions=TRUSTED + ["each call that needs a Signer gets its own copy (Signers are mutable by design)", "keys and certificates are created the ordinary way (len == cap)",
                            "the harness does not own the Go scheduler: schedule coverage is what the race detector's happens-before analysis observes over the generated runs"],
     technique="rapid-generated insertion-order permutations, interleaved call histories and goroutine plans; byte-equality oracle; Go race detector",
@@ -18,6 +18,7 @@ PLAN = dict(
         dict(name="mut", run="^TestPropMutationHistory$", checks=(500, 50000), shards=(1, 8), timeout=(300, 3600)),
         dict(name="hist", run="^TestPropHistory$", checks=(400, 50000), shards=(1, 16), timeout=(300, 3600)),
         dict(name="firstuse", run="^TestFirstUseConcurrent$", shards=(2, 16), timeout=(300, 3600), race=True),
+        dict(name="sharedchain", run="^TestPropSharedChain$", checks=(150, 5000), shards=(1, 4), timeout=(400, 3600), race=True),
         dict(name="conc", run="^TestPropConcurrent$", checks=(120, 15000), shards=(1, 4), timeout=(400, 3600), race=True),
     ],
     require=[("permutations", "kind:bundle"), ("permutations", "kind:sxg"), ("permutations", "kind:subset"), ("permutations", "kind:iblock"), ("permutations", "kind:sh-pl"),
